@@ -589,10 +589,18 @@ def random_rtb(ck, rng, n_seq):
         if verbose:
             ck.mark("random.ReduceToBason/verbose")
         ref = RefBason(**kw)
+        kw = dict(kw)
         prev = 10.0 ** rng.uniform(-1, 3, nb)
         probs = np.array([0.45, 0.33, 0.12 if nb > 1 else 0.0, 0.03, 0.07 if nb > 1 else 0.0])
         probs = probs / probs.sum()
         hist, was_stopped, good, modes, some_below = [], False, True, [], False
+        # the caller's loss tensor may be one buffer that is overwritten in place every iteration (an accumulator): the controller
+        # is told a sequence of loss *values*
+        reuse = form != "float" and rng.random() < 0.35
+        buf = None
+        if reuse:
+            ck.mark("random.ReduceToBason/loss-buffer-reused-in-place")
+            kw = dict(kw, loss_tensor="one buffer overwritten in place")
         for i in range(length):
             mode = str(rng.choice(["suff", "insuff", "mixed", "tol", "tolmixed"], p=probs))
             new = rtb_next(rng, prev, dec, tol, mode) if i else prev
@@ -602,6 +610,12 @@ def random_rtb(ck, rng, n_seq):
                 dt = torch.float32 if form.endswith("f32") else torch.float64
                 x = torch.tensor(new, dtype=dt)
                 x = x.reshape(()) if form.startswith("t0") else (x.reshape(2, 2) if form.startswith("b2x2") else x)
+                if reuse:
+                    if buf is None:
+                        buf = x.clone()
+                    else:
+                        buf.copy_(x)
+                    x = buf
             hist.append(plain_loss(x))
             modes.append(mode)
             try:
@@ -1071,7 +1085,7 @@ def _run(ck):
     for mon in ("tree.StopOnPlateau", "tree.ReduceToBason"):
         ck.require(f"{mon}/first-stop:budget", f"{mon}/first-stop:patience", f"{mon}/first-stop:budget+patience",
                    f"{mon}/verbose")
-    ck.require("driver.optimize/step-with-rejections-then-accepted")
+    ck.require("driver.optimize/step-with-rejections-then-accepted", "random.ReduceToBason/loss-buffer-reused-in-place")
     ck.require("driver.optimize/second-call-on-stopped-scheduler", "tree.StopOnPlateau/first-stop:rejected", "tree.ReduceToBason/first-stop:tol",
                "tree.StopOnPlateau/start64", "tree.StopOnPlateau/start0.015625", "tree.StopOnPlateau/start16384",
                "reset/after-plateau-steps", "reset/after-plateau-steps/negative-first-loss",
